@@ -99,17 +99,36 @@ impl Prog {
         }
         (out, complete)
     }
+    /// (a panic inside the library is caught, recorded for the report and returned as an error)
     pub fn to_commit(&self) -> Result<Arc<CommitNode>, String> {
-        types::Context::with_context(|ctx| {
-            let built = build(&ctx, &self.dag, self.fam, &|_| None).map_err(|(i, e)| format!("construction of node {i} failed: {e}"))?;
-            built[self.dag.len() - 1].finalize_types().map_err(|e| format!("finalize_types failed: {e}"))
-        })
+        let r = crate::engine::guard(|| {
+            types::Context::with_context(|ctx| {
+                let built = build(&ctx, &self.dag, self.fam, &|_| None).map_err(|(i, e)| format!("construction of node {i} failed: {e}"))?;
+                built[self.dag.len() - 1].finalize_types().map_err(|e| format!("finalize_types failed: {e}"))
+            })
+        });
+        match r {
+            Ok(x) => x,
+            Err(p) => {
+                crate::engine::defer_panic(format!("{} (commitment form)", self.render()), p.clone());
+                Err(format!("panic: {p}"))
+            }
+        }
     }
     pub fn to_redeem(&self, wit: &[Option<Rc<RV>>]) -> Result<Arc<RedeemNode>, String> {
-        types::Context::with_context(|ctx| {
-            let built = build(&ctx, &self.dag, self.fam, &|i| wit[i].as_ref().map(|v| v.to_value(&self.arrows[i].1))).map_err(|(i, e)| format!("construction of node {i} failed: {e}"))?;
-            built[self.dag.len() - 1].finalize_unpruned().map_err(|e| format!("finalize_unpruned failed: {e}"))
-        })
+        let r = crate::engine::guard(|| {
+            types::Context::with_context(|ctx| {
+                let built = build(&ctx, &self.dag, self.fam, &|i| wit[i].as_ref().map(|v| v.to_value(&self.arrows[i].1))).map_err(|(i, e)| format!("construction of node {i} failed: {e}"))?;
+                built[self.dag.len() - 1].finalize_unpruned().map_err(|e| format!("finalize_unpruned failed: {e}"))
+            })
+        });
+        match r {
+            Ok(x) => x,
+            Err(p) => {
+                crate::engine::defer_panic(format!("{} redeem {}", self.render(), wit_str(wit)), p.clone());
+                Err(format!("panic: {p}"))
+            }
+        }
     }
 }
 
